@@ -72,6 +72,13 @@ theorem Queue.ready_keeps {p : QP} {hist : List AddRec} {clock : Int} {q : Queue
         · exact ⟨g, hg, hr, rfl⟩
         · exact mem_removeAnswers_of hg hr hb
 
+/-- a withdrawal (`async_remove_answers`) keeps every queued record that is not withdrawn, in a group of the same age -/
+theorem Queue.remove_keeps (q : Queue) (rm : List RecId) {g : Group} {r : RecId} (hg : g ∈ q.groups) (hr : r ∈ g.answers.keys)
+    (hnr : r ∉ rm) : ∃ g' ∈ (q.removeRecords rm).groups, r ∈ g'.answers.keys ∧ g'.born = g.born := by
+  refine ⟨{ g with answers := g.answers.withdraw rm }, ?_, (Dict.keys_withdraw _ _ _).mpr ⟨hr, hnr⟩, rfl⟩
+  simp only [Queue.removeRecords, List.mem_map]
+  exact ⟨g, hg, rfl⟩
+
 /-! ### legal runs -/
 
 inductive QEv where
@@ -79,25 +86,34 @@ inductive QEv where
   | add (clock now draw : Int) (answers : Dict)
   /-- the armed timer fires at loop time `now` -/
   | fire (now : Int)
+  /-- `async_remove_answers(records)` at loop time `clock`: a service is unregistered while answers may be queued -/
+  | remove (clock : Int) (records : List RecId)
 
 def QEv.time : QEv → Int
   | .add c _ _ _ => c
   | .fire n => n
+  | .remove c _ => c
 
 /-- the event-loop axioms: time does not run backwards, a stamp is not in the future, the draw lies
 in the interval the code asked for, the clock never passes a due timer, a timer fires exactly when due -/
 def QEv.enabled (q : Queue) (clock : Int) : QEv → Prop
   | .add c now draw _ => clock ≤ c ∧ now ≤ c ∧ drawLo ≤ draw ∧ draw ≤ drawHi ∧ (∀ d, q.timer = some d → c ≤ d)
   | .fire now => clock ≤ now ∧ q.timer = some now
+  | .remove c _ => clock ≤ c ∧ (∀ d, q.timer = some d → c ≤ d)
 
 def Queue.stepQ (p : QP) (q : Queue) : QEv → Queue × List (Int × Dict)
   | .add c now draw a => (q.add p c now draw a, [])
   | .fire now => ((q.ready now).1, match (q.ready now).2 with | some b => [(now, b)] | none => [])
+  | .remove _ rm => (q.removeRecords rm, [])
 
 def addsOf : List QEv → List AddRec
   | [] => []
   | .add c now _ a :: es => ⟨c, now, a.keys⟩ :: addsOf es
   | .fire _ :: es => addsOf es
+  | .remove _ _ :: es => addsOf es
+
+/-- record `r` is withdrawn by one of the events (an `async_remove_answers` naming it) -/
+def withdrawnIn (evs : List QEv) (r : RecId) : Prop := ∃ c rm, QEv.remove c rm ∈ evs ∧ r ∈ rm
 
 /-- `Run p q clock evs q' clock' outs`: from `q` at time `clock` the events `evs` are all enabled in
 turn, lead to `q'` at `clock'`, and `outs` are the multicast batches with their send times -/
@@ -128,6 +144,9 @@ theorem QInv.step {p : QP} (hp : p.ok) {hist : List AddRec} {clock : Int} {q : Q
       rw [hb] at ho
       simp at ho; subst ho
       exact ⟨rfl, this.2 b hb⟩
+  | remove c rm =>
+    obtain ⟨h1, h2⟩ := he
+    exact ⟨by simpa [addsOf, Queue.stepQ, QEv.time] using hI.removeRecords h1 h2 rm, by simp [Queue.stepQ]⟩
 
 theorem addsOf_cons (e : QEv) (es : List QEv) : addsOf (e :: es) = addsOf [e] ++ addsOf es := by
   cases e <;> simp [addsOf]
@@ -167,6 +186,7 @@ theorem Run.times {p : QP} {q : Queue} {clock : Int} {evs : List QEv} {q' : Queu
       cases e with
       | add c now draw a => exact he.1
       | fire now => exact he.1
+      | remove c rm => exact he.1
     refine ⟨by omega, ?_⟩
     intro o ho
     rcases List.mem_append.mp ho with ho | ho
@@ -177,33 +197,49 @@ theorem Run.times {p : QP} {q : Queue} {clock : Int} {evs : List QEv} {q' : Queu
         cases hb : (q.ready now).2 with
         | none => rw [hb] at ho; cases ho
         | some b => rw [hb] at ho; simp at ho; subst ho; exact hle
+      | remove c rm => simp [Queue.stepQ] at ho
     · have := ih.2 o ho; omega
 
-/-- **liveness over all runs**: a queued record is sent before its group's deadline, or is still queued -/
+theorem withdrawnIn_cons {e : QEv} {es : List QEv} {r : RecId} (h : withdrawnIn es r) : withdrawnIn (e :: es) r := by
+  obtain ⟨c, rm, h1, h2⟩ := h
+  exact ⟨c, rm, List.mem_cons_of_mem _ h1, h2⟩
+
+/-- **liveness over all runs**: a queued record is sent before its group's deadline, or is still queued, or has been
+withdrawn by an `async_remove_answers` of the run (the registry changed: the record must no longer be sent, C08) -/
 theorem Run.live {p : QP} (hp : p.ok) {q : Queue} {clock : Int} {evs : List QEv} {q' : Queue} {c' : Int}
     {outs : List (Int × Dict)} (hr : Run p q clock evs q' c' outs) :
     ∀ hist, QInv p hist clock q → ∀ (r : RecId) (D : Int),
       (∃ g ∈ q.groups, r ∈ g.answers.keys ∧ g.born + p.agg + p.addl ≤ D) →
-      (∃ o ∈ outs, r ∈ o.2.keys ∧ o.1 ≤ D) ∨ (∃ g ∈ q'.groups, r ∈ g.answers.keys ∧ g.born + p.agg + p.addl ≤ D) := by
+      (∃ o ∈ outs, r ∈ o.2.keys ∧ o.1 ≤ D) ∨ (∃ g ∈ q'.groups, r ∈ g.answers.keys ∧ g.born + p.agg + p.addl ≤ D) ∨
+        withdrawnIn evs r := by
   induction hr with
-  | nil q c => intro hist hI r D h; exact Or.inr h
+  | nil q c => intro hist hI r D h; exact Or.inr (Or.inl h)
   | @cons q clock e es q' c' outs he _ ih =>
     intro hist hI r D ⟨g, hg, hr, hD⟩
     obtain ⟨hI', _⟩ := hI.step hp he
+    have cont : (∃ g ∈ ((q.stepQ p e).1).groups, r ∈ g.answers.keys ∧ g.born + p.agg + p.addl ≤ D) →
+        (∃ o ∈ (q.stepQ p e).2 ++ outs, r ∈ o.2.keys ∧ o.1 ≤ D) ∨ (∃ g ∈ q'.groups, r ∈ g.answers.keys ∧ g.born + p.agg + p.addl ≤ D) ∨
+          withdrawnIn (e :: es) r := by
+      intro hq
+      rcases ih _ hI' r D hq with ⟨o, ho, h⟩ | h | h
+      · exact Or.inl ⟨o, List.mem_append_right _ ho, h⟩
+      · exact Or.inr (Or.inl h)
+      · exact Or.inr (Or.inr (withdrawnIn_cons h))
     cases e with
     | add c now draw a =>
       obtain ⟨g', hg', hr', hb⟩ := Queue.add_keeps p q c now draw a hg hr
-      rcases ih _ hI' r D ⟨g', hg', hr', by rw [hb]; exact hD⟩ with ⟨o, ho, h⟩ | h
-      · exact Or.inl ⟨o, List.mem_append_right _ ho, h⟩
-      · exact Or.inr h
+      exact cont ⟨g', hg', hr', by rw [hb]; exact hD⟩
     | fire now =>
       obtain ⟨hle, hk⟩ := Queue.ready_keeps hI he.2 hg hr
       rcases hk with ⟨b, hb, hrb⟩ | ⟨g', hg', hr', hb⟩
       · refine Or.inl ⟨(now, b), List.mem_append_left _ ?_, hrb, by simp only; omega⟩
         simp [Queue.stepQ, hb]
-      · rcases ih _ hI' r D ⟨g', hg', hr', by rw [hb]; exact hD⟩ with ⟨o, ho, h⟩ | h
-        · exact Or.inl ⟨o, List.mem_append_right _ ho, h⟩
-        · exact Or.inr h
+      · exact cont ⟨g', hg', hr', by rw [hb]; exact hD⟩
+    | remove c rm =>
+      by_cases hrm : r ∈ rm
+      · exact Or.inr (Or.inr ⟨c, rm, List.mem_cons_self, hrm⟩)
+      · obtain ⟨g', hg', hr', hb⟩ := Queue.remove_keeps q rm hg hr hrm
+        exact cont ⟨g', hg', hr', by rw [hb]; exact hD⟩
 
 /-- while a group is queued the clock has not passed its deadline -/
 theorem QInv.not_late {p : QP} {hist : List AddRec} {clock : Int} {q : Queue} (hI : QInv p hist clock q)
